@@ -109,6 +109,20 @@ func c12GenCase(r *vfRand, adv bool) *c01In {
 		filtNum = r.PickInt(3, 5, 7)
 	}
 	in := &c01In{Server: c01GenServer(r, filtNum, true)}
+	if r.Chance(1, 5) && len(in.Server.Rules) > 0 {
+		// an entry rewriting /api/<rest> to /<rest> ahead of a catch-all: the rewritten path is
+		// a path of its own, routed elsewhere
+		pre := r.PickStr("/api", "/v1", "/a")
+		ps := []c01Path{
+			{Regexp: "^" + pre + "(/.*)$", Rewrite: "$1", Backend: "A", Methods: []string{}, Headers: []c01Header{}},
+			{Prefix: "/", Backend: "B", Methods: []string{}, Headers: []c01Header{}},
+		}
+		if r.Bool() {
+			ps[0] = c01Path{Prefix: pre + "/", Rewrite: "/", Backend: "A", Methods: []string{}, Headers: []c01Header{}}
+		}
+		in.Server.Rules[0].Paths = append(ps, in.Server.Rules[0].Paths...)
+		in.Server.Rules[0].Host, in.Server.Rules[0].HostRegexp = "", ""
+	}
 	in.Server.CacheSize = r.PickInt(1, 1, 2, 2, 8, 100)
 	if adv {
 		in.Server.CacheSize = r.PickInt(1, 2, 3, 100)
@@ -120,7 +134,9 @@ func c12GenCase(r *vfRand, adv bool) *c01In {
 		// variants sharing host, method and path (= the cache key) or colliding with it
 		for v := r.Intn(3); v > 0; v-- {
 			c := q
-			switch r.Intn(9) {
+			switch r.Intn(10) {
+			case 9: // same Host header, other TLS server name
+				c.SNI = c01Pick(r, append([]string{"-", ""}, c01Hosts...))
 			case 8: // plain OPTIONS on the same host+path
 				c.Method = "OPTIONS"
 			case 7: // CORS preflight announcing the original (or another) method: same key as a plain OPTIONS
@@ -169,6 +185,17 @@ func c12GenCase(r *vfRand, adv bool) *c01In {
 				c.Method = c01Pick(r, c01ReqMeths)
 			}
 			in.Reqs = append(in.Reqs, c)
+		}
+	}
+	// the rewritten form of a request is requested directly as well (same host and method):
+	// the key of a cached route is the path as RECEIVED, never the rewritten one
+	if tw := c01Build(in.Server, 0); tw != nil {
+		for _, q := range append([]c01Req{}, in.Reqs...) {
+			if o := tw.serve(q); o.Backend != "" && o.Path != q.Path && len(in.Reqs) < 24 {
+				d := q
+				d.Path, d.RawPath = o.Path, ""
+				in.Reqs = append(in.Reqs, d)
+			}
 		}
 	}
 	n := r.Range(5, 30)
